@@ -10,15 +10,17 @@ from . import p_c01, p_c11
 TECHNIQUE = 'static analysis: ownership threading of the session state (no in-place mutation), flush-before-prompt cut queries, writer language, shared interpreter-loop and reader rules'
 LEVEL = "other"
 EXPLANATION = (
-    "Persistence and pairing rules of the interactive interpreter decided on all CFG paths of interpreter::run: "
-    "(STATE) the interpreter state lives outside the line loop; inside the loop it is only ever replaced by the result "
-    "of execute(.., state, command) — threading stacks, label table, last jump source and command log from line to "
-    "line — or, under the `clear` command, by a freshly constructed state (UnOptState::new(), whose fields are all "
-    "initial, so nothing of the previous session survives); every command of an entered line is executed in order on "
-    "the line's own capturing writers; (FLUSH) every path from an executed line back to the prompt passes through a "
-    "flush of both per-line writers, whose flush delivers the whole buffer exactly once (C11.ONCE rules re-run) and "
-    "program-requested exits flush first (C01.POP); (LOOP) execute() runs from the appended command until control "
-    "passes it (C01.LOOP). The line-by-line / whole-program equality itself is NOT decided."
+    'Persistence and pairing rules of the interactive interpreter decided on all CFG paths of interpreter::run: '
+    '(STATE) the interpreter state lives outside the line loop; inside the loop it is only ever replaced by the '
+    'result of execute(.., state, command) — threading stacks, label table, last jump source and command log from '
+    'line to line — or, under the `clear` command, by a freshly constructed state (UnOptState::new(), whose fields '
+    'are all initial, so nothing of the previous session survives); every command of an entered line is executed in '
+    "order on the line's own capturing writers; (FLUSH) every path from an executed line back to the prompt passes "
+    'through a flush of both per-line writers, whose flush delivers the whole buffer exactly once (C11.ONCE rules '
+    're-run) and program-requested exits flush first (C01.POP); (LOOP) execute() runs from the appended command until '
+    'control passes it (C01.LOOP); (EOFMARK) the prompt loop leaves on an empty line, so the stdin reader must return '
+    'every entered line with its terminator (otherwise an entered empty line ends the session). The line-by-line / '
+    'whole-program equality itself is NOT decided.'
 )
 ASSUMPTIONS = ["rustc MIR (nightly 1.97, mir-opt-level=0); unwind edges ignored", "execute() and execute_one are the interpreter (C01)"]
 TRUSTED = ["rustc nightly MIR", "/verif/rules A-ORG/A-DOM/A-GEA"]
